@@ -3,6 +3,10 @@
 //!   c18 print  <cases.ndjson> <n>                        source of the single-transition program of case n
 //!   c18 run    <file.sy>                                 compile + run a Sylt file, show the output (debugging)
 //! Case (printed by TLC, module SyltStd): {ty, kind, hist:[op], op, res, obs:[{op,res}]}, op = {op:name, a:[value]}.
+//! Case of module SyltShare (kind "share", several registers r1, r2, r3): {ty, shape, hist:[sop], op:sop, res,
+//!   regs:[{rk, et, how}] (the registers after the step), obs:[{reg, op, res}]}, sop = {op, a, on:register, from:register|0}.
+//!   env C18_STUB=alias renders the derivation "copy" as a plain alias (`r2 = r1`): the stubbed implementation of the
+//!   negative control, which the comparison must reject.
 //! Result: {i, verdict, lines:[{cls, what, want, got}], status, source?}; expectations are only *rendered* here.
 
 use serde_json::{json, Value};
@@ -16,6 +20,8 @@ pub struct PlanLine {
     pub cls: &'static str,
     pub what: String,
     pub want: String,
+    /// register the line observes (SyltShare; 0 = the only container / a result)
+    pub reg: usize,
 }
 
 /// Everything planned for one transition: its index in the case file, the expected lines, a stand-alone program.
@@ -52,6 +58,7 @@ fn dval_type(ty: &str) -> &'static str {
 fn lambda(name: &str, ty: &str) -> (&'static str, String) {
     let same = elem_type(ty).to_string();
     match name {
+        "id" => ("pu x -> x end", same),
         "inc" => ("pu x -> x + 1 end", "int".into()),
         "mkpair" => ("pu x -> (x, x) end", "(int, int)".into()),
         "dup" => ("pu x -> x + x end", "str".into()),
@@ -114,6 +121,7 @@ struct Emitter {
     nlit: usize,
     kind: String,
     ty: String,
+    reg: usize,
 }
 
 impl Emitter {
@@ -122,7 +130,7 @@ impl Emitter {
     }
     fn expect(&mut self, cls: &'static str, what: String, expr: &str, want: String) {
         self.stmt(format!("print({})", expr));
-        self.lines.push(PlanLine { cls, what, want });
+        self.lines.push(PlanLine { cls, what, want, reg: self.reg });
     }
     /// a list literal bound to a typed local (an empty `[]` has no type of its own)
     fn list_local(&mut self, v: &Value, elem: &str) -> String {
@@ -244,7 +252,10 @@ fn op_text(op: &Value) -> String {
 /// The body of the Sylt function that replays one transition, and the lines it must print.
 fn transition(case: &Value) -> (Vec<String>, Vec<PlanLine>) {
     let mut em = Emitter { body: vec![], lines: vec![], nlit: 0,
-        kind: case["kind"].as_str().unwrap().to_string(), ty: case["ty"].as_str().unwrap().to_string() };
+        kind: case["kind"].as_str().unwrap().to_string(), ty: case["ty"].as_str().unwrap().to_string(), reg: 0 };
+    if em.kind == "share" {
+        return share_transition(case, em);
+    }
     let hist = case["hist"].as_array().unwrap();
     let op = &case["op"];
     let mut todo: Vec<&Value> = hist.iter().collect();
@@ -280,6 +291,136 @@ fn transition(case: &Value) -> (Vec<String>, Vec<PlanLine>) {
             em.observe(cls, &op_text(&ask["op"]), &call, &ask["res"], &et, None);
         }
     }
+    (em.body, em.lines)
+}
+
+// ---------------------------------------------------------------------------------------------------------
+// SyltShare: several registers. Register i is the Sylt local `r<i>`; its kind and element type come from the case.
+
+/// element type `et` of a register ("int" | "pair" | "ent" = entry of the dict instantiation of `ty`) as a Sylt type
+fn share_elem(et: &str, ty: &str) -> String {
+    match et {
+        "ent" => format!("({}, {})", elem_type(ty), dval_type(ty)),
+        other => elem_type(other).to_string(),
+    }
+}
+
+fn share_type(reg: &Value, ty: &str) -> String {
+    let et = share_elem(reg["et"].as_str().unwrap(), ty);
+    match reg["rk"].as_str().unwrap() {
+        "dict" => format!("dict.Dict({}, {})", elem_type(ty), dval_type(ty)),
+        "set" => format!("set.Set({})", et),
+        _ => format!("[{}]", et), // list, bag
+    }
+}
+
+fn share_op_text(o: &Value) -> String {
+    let from = o["from"].as_u64().unwrap_or(0);
+    if o["op"] == "lit" {
+        format!("r1 := {}", render_value(&o["a"][0]))
+    } else if from > 0 {
+        format!("r{} := {} of r{}", o["on"], op_text(o), from)
+    } else {
+        format!("{} on r{}", op_text(o), o["on"])
+    }
+}
+
+/// the statement(s) of a Lit / Derive / Mutate step; returns the expression of a non-void result (pop)
+fn share_step(em: &mut Emitter, o: &Value, regs: &[Value], stub_alias: bool) -> Option<String> {
+    let name = o["op"].as_str().unwrap();
+    let on = o["on"].as_u64().unwrap() as usize;
+    let from = o["from"].as_u64().unwrap() as usize;
+    let ty = em.ty.clone();
+    let r = format!("r{}", on);
+    if name == "lit" || from > 0 {
+        let t = share_type(&regs[on - 1], &ty);
+        let s = format!("r{}", from);
+        let fname = o["a"][0]["name"].as_str().unwrap_or("");
+        match name {
+            "lit" => em.stmt(format!("{}: {} = {}", r, t, lit(&o["a"][0]))),
+            "map" => em.stmt(format!("{}: {} = list.map({}, {})", r, t, s, lambda(fname, &ty).0)),
+            "filter" => em.stmt(format!("{}: {} = list.filter({}, {})", r, t, s, lambda(fname, &ty).0)),
+            "copy" if stub_alias => em.stmt(format!("{}: {} = {}", r, t, s)),
+            "copy" => {
+                em.stmt(format!("{}: {} = []", r, t));
+                em.stmt(format!("list.for_each({}, fn x do list.push({}, x) end)", s, r));
+            }
+            "dict.from_list" => em.stmt(format!("{}: {} = dict.from_list({})", r, t, s)),
+            "set.from_list" => em.stmt(format!("{}: {} = set.from_list({})", r, t, s)),
+            "dict.map" => {
+                let f = if fname == "id" { "pu e -> e end".to_string() } else { format!("pu e -> (e[0], {}) end", lit(&o["a"][1])) };
+                em.stmt(format!("{}: {} = dict.map({}, {})", r, t, s, f));
+            }
+            "set.map" => em.stmt(format!("{}: {} = set.map({}, {})", r, t, s, lambda(fname, &ty).0)),
+            "entries" => {
+                em.stmt(format!("{}: {} = []", r, t));
+                em.stmt(format!("dict.for_each({}, fn e do list.push({}, e) end)", s, r));
+            }
+            "elems" => {
+                em.stmt(format!("{}: {} = []", r, t));
+                em.stmt(format!("set.for_each({}, fn e do list.push({}, e) end)", s, r));
+            }
+            other => tool_error(&format!("unknown derivation {}", other)),
+        }
+        return None;
+    }
+    let module = match regs[on - 1]["rk"].as_str().unwrap() { "dict" => "dict", "set" => "set", _ => "list" };
+    let mut all = vec![r];
+    all.extend(o["a"].as_array().unwrap().iter().map(lit));
+    let call = format!("{}.{}({})", module, name, all.join(", "));
+    if name == "pop" {
+        Some(call)
+    } else {
+        em.stmt(call);
+        None
+    }
+}
+
+fn share_transition(case: &Value, mut em: Emitter) -> (Vec<String>, Vec<PlanLine>) {
+    let stub_alias = std::env::var("C18_STUB").map(|v| v == "alias").unwrap_or(false);
+    let regs: Vec<Value> = case["regs"].as_array().unwrap().clone();
+    let ty = em.ty.clone();
+    let hist = case["hist"].as_array().unwrap();
+    for (k, o) in hist.iter().enumerate() {
+        if let Some(call) = share_step(&mut em, o, &regs, stub_alias) {
+            em.stmt(format!("h{} :: {}", k, call));
+        }
+    }
+    let op = &case["op"];
+    em.reg = 0;
+    if let Some(call) = share_step(&mut em, op, &regs, stub_alias) {
+        let et = share_elem(regs[op["on"].as_u64().unwrap() as usize - 1]["et"].as_str().unwrap(), &ty);
+        em.observe("result", &share_op_text(op), &call, &case["res"], &et, Some("r"));
+    }
+    for ask in case["obs"].as_array().unwrap() {
+        let i = ask["reg"].as_u64().unwrap() as usize;
+        let reg = &regs[i - 1];
+        let rk = reg["rk"].as_str().unwrap();
+        let et = share_elem(reg["et"].as_str().unwrap(), &ty);
+        let r = format!("r{}", i);
+        let o = &ask["op"];
+        let name = o["op"].as_str().unwrap();
+        let args: Vec<String> = o["a"].as_array().unwrap().iter().map(lit).collect();
+        em.reg = i;
+        let what = format!("r{}: {}", i, op_text(o));
+        match (rk, name) {
+            (_, "eq") | (_, "str") => {
+                let lt = if rk == "dict" { share_elem("ent", &ty) } else { et.clone() };
+                let l = em.list_local(&o["a"][0], &lt);
+                let same = match rk { "dict" => format!("dict.from_list({})", l), "set" => format!("set.from_list({})", l), _ => l };
+                if name == "eq" {
+                    em.expect("interchange", format!("r{} == {} {}", i, rk, lit(&o["a"][0])), &format!("{} == {}", r, same), render_value(&ask["res"]));
+                } else {
+                    em.expect("print", format!("as_str(r{}) == as_str({} {})", i, rk, lit(&o["a"][0])),
+                              &format!("as_str({}) == as_str({})", r, same), render_value(&ask["res"]));
+                }
+            }
+            ("dict", _) => em.observe("state", &what, &format!("dict.{}({}, {})", name, r, args.join(", ")).replace(", )", ")"), &ask["res"], &et, None),
+            ("set", _) => em.observe("state", &what, &format!("set.{}({}, {})", name, r, args.join(", ")).replace(", )", ")"), &ask["res"], &et, None),
+            (_, _) => em.observe("state", &what, &format!("list.{}({}, {})", name, r, args.join(", ")).replace(", )", ")"), &ask["res"], &et, None),
+        }
+    }
+    em.reg = 0;
     (em.body, em.lines)
 }
 
@@ -429,7 +570,7 @@ fn judge(plans: &[Plan], obs: &luarun::RunObs, src: &str) -> (usize, Vec<Value>)
             .lines
             .iter()
             .enumerate()
-            .map(|(j, pl)| json!({"cls": pl.cls, "what": pl.what, "want": pl.want, "got": got.get(j).cloned().unwrap_or_else(|| "<missing>".into())}))
+            .map(|(j, pl)| json!({"cls": pl.cls, "what": pl.what, "want": pl.want, "reg": pl.reg, "got": got.get(j).cloned().unwrap_or_else(|| "<missing>".into())}))
             .collect();
         let bad = lines.iter().any(|l| l["want"] != l["got"]) || got.len() != plan.lines.len();
         let verdict = if let Status::Unsupported { .. } = obs.status {
@@ -445,7 +586,7 @@ fn judge(plans: &[Plan], obs: &luarun::RunObs, src: &str) -> (usize, Vec<Value>)
         if died_here {
             r["status"] = json!(format!("{:?}", obs.status));
             // which planned line was being computed when the program died
-            r["died_at"] = json!(plan.lines.get(got.len()).map(|l| json!({"cls": l.cls, "what": l.what})));
+            r["died_at"] = json!(plan.lines.get(got.len()).map(|l| json!({"cls": l.cls, "what": l.what, "reg": l.reg})));
         }
         if verdict != "ok" {
             r["source"] = json!(single_source(plan, src));
